@@ -1,13 +1,19 @@
 package main
 
 import (
+	"fmt"
 	"math/big"
+
+	"verif/harness/hx"
 
 	"verif/harness/abci"
 
 	tokenstypes "github.com/KiraCore/sekai/x/tokens/types"
+	"github.com/cosmos/cosmos-sdk/crypto/keys/secp256k1"
+	cryptotypes "github.com/cosmos/cosmos-sdk/crypto/types"
 	sdk "github.com/cosmos/cosmos-sdk/types"
 	"github.com/cosmos/cosmos-sdk/types/tx/signing"
+	banktypes "github.com/cosmos/cosmos-sdk/x/bank/types"
 	"github.com/ethereum/go-ethereum/common"
 	ethtypes "github.com/ethereum/go-ethereum/core/types"
 	ethcrypto "github.com/ethereum/go-ethereum/crypto"
@@ -15,6 +21,129 @@ import (
 )
 
 const ethChainID = 8789
+
+// ethAccount: an Ethereum-style account: its address is the Ethereum address of its key, so the
+// key on record does not hash to the address and the chain verifies it through raw transactions
+func (w *world) setupEthAccount() {
+	b := make([]byte, 32)
+	r := hx.NewRng(w.seed*7919 + 4242)
+	for i := range b {
+		b[i] = byte(r.Next())
+	}
+	b[0] |= 1
+	w.ethKey = &secp256k1.PrivKey{Key: b}
+	ec, err := ethcrypto.ToECDSA(b)
+	if err != nil {
+		panic(err)
+	}
+	w.ethAddr = sdk.AccAddress(ethcrypto.PubkeyToAddress(ec.PublicKey).Bytes())
+	w.id(w.ethAddr.String())
+	w.must("fund-eth-account", []sdk.Msg{banktypes.NewMsgSend(w.addr(0), w.ethAddr, sdk.NewCoins(ukex(9_000_000_000)))}, []int{0})
+	w.ethEnvelope("eth-honest", false, 0, w.addr(1), 5, nil) // puts the key on record
+}
+
+// ethEnvelope: a SIGN_MODE_DIRECT transaction whose first message is a raw Ethereum NativeSend of
+// the Ethereum-style account, HONESTLY signed by its key (nonce = current sequence + nonceOff:
+// 0 = fresh, negative = one already accepted), followed by [extra] messages.  The only signature
+// material is the inner payload: the account authorised [amt] to [to] (plus the fee), nothing else.
+func (w *world) ethEnvelope(op string, attack bool, nonceOff int64, to sdk.AccAddress, amt int64, extra []sdk.Msg) {
+	ctx := w.ctx()
+	acc := w.c.App.AccountKeeper.GetAccount(ctx, w.ethAddr)
+	if acc == nil || w.ethKey == nil {
+		return
+	}
+	ec, _ := ethcrypto.ToECDSA(w.ethKey.Key)
+	toE := common.BytesToAddress(to)
+	nonce := uint64(int64(acc.GetSequence()) + nonceOff)
+	inner := &ethtypes.LegacyTx{Nonce: nonce, To: &toE, Value: new(big.Int).Mul(big.NewInt(amt), big.NewInt(1000_000_000_000)), Gas: 21000, GasPrice: big.NewInt(1)}
+	etx, err := ethtypes.SignNewTx(ec, ethtypes.NewEIP155Signer(big.NewInt(ethChainID)), inner)
+	if err != nil {
+		return
+	}
+	data, err := rlp.EncodeToBytes(etx)
+	if err != nil {
+		return
+	}
+	msgs := append([]sdk.Msg{&tokenstypes.MsgEthereumTx{TxType: "NativeSend", Sender: w.ethAddr.String(), Hash: etx.Hash().Hex(), Data: data}}, extra...)
+	pre := w.snapshot()
+	txb := w.c.Enc.TxConfig.NewTxBuilder()
+	res := abci.TxResult{}
+	fee := abci.DefaultFee()
+	if err := txb.SetMsgs(msgs...); err != nil {
+		res = abci.TxResult{Code: 1 << 30, Log: "build: " + err.Error()}
+	} else {
+		txb.SetFeeAmount(fee)
+		txb.SetGasLimit(10_000_000)
+		noise := []byte("raw-eth-slot-noise-raw-eth-slot-noise-raw-eth-slot-noise-0123456789")[:65]
+		sig := signing.SignatureV2{PubKey: w.ethKey.PubKey(),
+			Data: &signing.SingleSignatureData{SignMode: signing.SignMode_SIGN_MODE_DIRECT, Signature: noise}, Sequence: acc.GetSequence()}
+		if err := txb.SetSignatures(sig); err != nil {
+			res = abci.TxResult{Code: 1 << 30, Log: "sign: " + err.Error()}
+		} else if bz, err := w.c.Enc.TxConfig.TxEncoder()(txb.GetTx()); err != nil {
+			res = abci.TxResult{Code: 1 << 30, Log: "encode: " + err.Error()}
+		} else {
+			res = w.c.DeliverRaw(bz)
+		}
+	}
+	post := w.snapshot()
+	ok := res.Code == 0 && res.Panic == ""
+	log := res.Log
+	if len(log) > 200 {
+		log = log[:200]
+	}
+	auth := sdk.NewCoins(ukex(amt)).Add(fee...)
+	facts := []string{fmt.Sprintf("FAuthorised %s %s", hx.Z(w.id(w.ethAddr.String())), coinsZ(auth))}
+	jf := []string{fmt.Sprintf("%s signed only the inner raw transaction: %dukex to %s (plus the fee %s); %d further message(s) follow", w.name(w.id(w.ethAddr.String())), amt, w.name(w.id(to.String())), fee, len(extra))}
+	ef, ej := w.escrowFacts(pre, post, nil)
+	w.emit(0, op, attack, msgs, nil, ok, log, pre, post, append(facts, ef...), append(jf, ej...), "")
+}
+
+// coveredFirstOnly: account [v] honestly signs (SIGN_MODE_DIRECT) a transaction consisting of m0
+// alone; the attacker re-uses that signature on a transaction [m0, extra...]
+func (w *world) coveredFirstOnly(op string, v int, m0 sdk.Msg, authorised sdk.Coins, extra []sdk.Msg) {
+	pre := w.snapshot()
+	fee := abci.DefaultFee()
+	res := abci.TxResult{}
+	acc := w.c.App.AccountKeeper.GetAccount(w.ctx(), w.addr(v))
+	txb := w.c.Enc.TxConfig.NewTxBuilder()
+	if acc == nil || txb.SetMsgs(m0) != nil {
+		return
+	}
+	txb.SetFeeAmount(fee)
+	txb.SetGasLimit(10_000_000)
+	if _, err := abci.SignTx(w.c.Enc.TxConfig, txb, []cryptotypes.PrivKey{w.c.Accounts[v].Priv}, []uint64{acc.GetAccountNumber()}, []uint64{acc.GetSequence()}); err != nil {
+		return
+	}
+	sigs, err := txb.GetTx().GetSignaturesV2()
+	if err != nil {
+		return
+	}
+	msgs := append([]sdk.Msg{m0}, extra...)
+	txb2 := w.c.Enc.TxConfig.NewTxBuilder()
+	if txb2.SetMsgs(msgs...) != nil {
+		return
+	}
+	txb2.SetFeeAmount(fee)
+	txb2.SetGasLimit(10_000_000)
+	if err := txb2.SetSignatures(sigs...); err != nil {
+		return
+	}
+	bz, err := w.c.Enc.TxConfig.TxEncoder()(txb2.GetTx())
+	if err != nil {
+		return
+	}
+	res = w.c.DeliverRaw(bz)
+	post := w.snapshot()
+	ok := res.Code == 0 && res.Panic == ""
+	log := res.Log
+	if len(log) > 200 {
+		log = log[:200]
+	}
+	facts := []string{fmt.Sprintf("FAuthorised %s %s", hx.Z(int64(v)), coinsZ(authorised.Add(fee...)))}
+	jf := []string{fmt.Sprintf("a%d signed a transaction consisting of the first message only (%s plus the fee); its signature is re-used with %d appended message(s)", v, authorised, len(extra))}
+	ef, ej := w.escrowFacts(pre, post, nil)
+	w.emit(0, op, true, msgs, nil, ok, log, pre, post, append(facts, ef...), append(jf, ej...), "")
+}
 
 // ethForged: MsgEthereumTx{Sender: victim} whose raw Ethereum transaction (NativeSend to the
 // attacker) is signed by the ATTACKER's key with the victim's sequence as nonce; the signature
